@@ -239,6 +239,21 @@ PRETICK = {
              "self.file_system.pre_timestep": ("emit", 5, [])}},
  ]}
 
+# ---- NMNE part of the interface observation ----
+NO = "src/primaite/game/agent/observations/nic_observations.py"
+NMNEOBS = {
+ "enum_files": [], "imports": ["From PV Require Gen.GenObs."],
+ "methods": [
+  {"path": NO, "cls": "NICObservation", "fn": "observe", "name": "NICObservation_observe_nmne", "ret": "unit", "drop_params": ["state"],
+   "only_if": "self.include_nmne",
+   "stmts": {"obs.update({'NMNE': {}})": ("erase",)},
+   "erase_locals": ["direction_dict", "inbound_keywords", "outbound_keywords"],
+   "exprs": {"inbound_keywords.get('*', 0)": ("inbound_count", "Z"), "outbound_keywords.get('*', 0)": ("outbound_count", "Z")},
+   "setitem_attrs": {"obs['NMNE']['inbound']": "obs_nmne_inbound", "obs['NMNE']['outbound']": "obs_nmne_outbound"},
+   "calls": {"self._categorise_mne_count": ("pure", "GenObs.categorise_mne_count", ["nmne_count"], ["Z"], "Z",
+                                            ["high_nmne_threshold", "med_nmne_threshold", "low_nmne_threshold"])}},
+ ]}
+
 GROUPS = {
  "software": dict(SOFTWARE, gen="Gen/GenSoftware.v", eq="Proofs/GenEqSoftware.vo"),
  "killchain": dict(KILLCHAIN, gen="Gen/GenKillChain.v", eq="Proofs/GenEqKillChain.vo"),
@@ -253,6 +268,7 @@ GROUPS = {
  "acllist": dict(ACLLIST, gen="Gen/GenAclList.v", eq="Proofs/GenEqAclList.vo"),
  "periodic": dict(PERIODIC, gen="Gen/GenPeriodic.v", eq="Proofs/GenEqPeriodic.vo"),
  "pretick": dict(PRETICK, gen="Gen/GenPreTick.v", eq="Proofs/GenEqPreTick.vo"),
+ "nmneobs": dict(NMNEOBS, gen="Gen/GenNmneObs.v", eq="Proofs/GenEqNmneObs.vo"),
 }
 for _g in GROUPS.values():
     _g["functions"] = ["%s.%s" % (m["cls"], m["fn"]) for m in _g["methods"]]
